@@ -365,3 +365,139 @@ Proof.
   unfold unknown_value in Hu. apply andb_true_iff in Hu. destruct Hu as [Hz _].
   apply Z.eqb_eq in Hz. simpl in Hz. subst. vm_compute. discriminate.
 Qed.
+
+(* ------------------------------------------------------------------ *)
+(* the whole property on the model *)
+
+Lemma c38_partial_all x : in_domain x -> ~ defect x -> roundtrips x.
+Proof.
+  destruct x as [e v|e v|d|c|s|s]; simpl.
+  - intros [He Hv] G. now apply (proj1 (enum_roundtrip e v He Hv)).
+  - intros [He Hv] G. now apply (proj2 (enum_roundtrip e v He Hv)).
+  - intros Hd G. apply sd_roundtrip.
+    destruct d as [ty s]; simpl in *.
+    destruct Hd as [<-|Hd]; [|exact Hd].
+    exfalso. apply G. split; reflexivity.
+  - intros Hr _. now apply ci_roundtrip.
+  - intros [Hct Hv] G. apply server_roundtrip; [exact Hct|].
+    destruct (is_credential s); simpl in *; try exact I; try contradiction.
+    + destruct Hct as [E|[E|[]]]; [now symmetry|].
+      exfalso. apply G. intro H. rewrite H in E. discriminate.
+    + destruct Hct as [E|[E|[]]]; [|now symmetry].
+      exfalso. apply G. intro H. rewrite H in E. discriminate.
+  - intros D G. now apply stats_roundtrip_ok.
+Qed.
+
+Lemma c38_defect_fails_all x : in_domain x -> defect x -> ~ roundtrips x.
+Proof.
+  destruct x as [e v|e v|d|c|s|s]; simpl.
+  - intros [He Hv] G. now apply (proj1 (enum_defect_fails e v He Hv)).
+  - intros [He Hv] G. now apply (proj2 (enum_defect_fails e v He Hv)).
+  - intros Hd [Hu _]. destruct d as [ty s]. cbn [sd_type] in Hu.
+    unfold unknown_value in Hu. apply andb_true_iff in Hu. destruct Hu as [Hz _].
+    apply Z.eqb_eq in Hz. subst ty.
+    change (sd_decode (sd_encode {| sd_type := 0; sd_sdp := s |}) <> Ok {| sd_type := 0; sd_sdp := s |}).
+    rewrite sd_unknown_fails. discriminate.
+  - intros _ [].
+  - intros [Hct Hv] G. now apply server_defect_fails.
+  - intros D G. now apply stats_defect_fails.
+Qed.
+
+Lemma witnesses_fail :
+  Forall (fun x => in_domain x /\ defect x /\ ~ roundtrips x) c38_witnesses.
+Proof.
+  assert (H : Forall (fun x => in_domain x /\ defect x) c38_witnesses).
+  { unfold c38_witnesses. repeat apply Forall_cons; try apply Forall_nil; simpl.
+    - split; [split; [tauto | simpl; tauto] | split; reflexivity].
+    - split; [split; [unfold all_enums; repeat (first [left; reflexivity | right]) | simpl; tauto]
+             | split; reflexivity].
+    - split; [split; [unfold all_enums; repeat (first [left; reflexivity | right]) | simpl; tauto]
+             | split; reflexivity].
+    - split; [split; [unfold all_enums; repeat (first [left; reflexivity | right]) | simpl; tauto]
+             | split; reflexivity].
+    - split; [split; [unfold all_enums; repeat (first [left; reflexivity | right]) | simpl; tauto]
+             | split; reflexivity].
+    - split; [tauto | split; reflexivity].
+    - split; [split; [tauto | exact I] | intro H; discriminate].
+    - split; [split; [tauto | exact I] | intro H; discriminate].
+    - split.
+      + split; [exists None; split; [simpl; tauto | exact I]|].
+        repeat constructor; simpl; tauto.
+      + apply Exists_cons_hd. split; reflexivity. }
+  eapply Forall_impl; [|exact H].
+  intros x [D F]. repeat split; try assumption. now apply c38_defect_fails_all.
+Qed.
+
+(* ------------------------------------------------------------------ *)
+(* the text layer (encoding/json assumed to print and parse trees faithfully) *)
+
+Section TextLayer.
+  Variable text : Type.
+  Variable print : json -> text.
+  Variable parse : text -> option json.
+  Hypothesis parse_print : forall j, parse (print j) = Some j.
+
+  Lemma via_text_print {A} (dec : json -> result A) (j : json) :
+    via_text parse dec (print j) = dec j.
+  Proof. unfold via_text. now rewrite parse_print. Qed.
+
+  Lemma sd_text d : In (sd_type d) [1; 2; 3; 4] ->
+    via_text parse sd_decode (print (sd_encode d)) = Ok d.
+  Proof. intro H. rewrite via_text_print. now apply sd_roundtrip. Qed.
+
+  Lemma ci_text c : (forall i, ci_idx c = Some i -> 0 <= i < 65536) ->
+    via_text parse ci_decode (print (ci_encode c)) = Ok c.
+  Proof. intro H. rewrite via_text_print. now apply ci_roundtrip. Qed.
+
+  Lemma server_text s :
+    In (is_credtype s) [0; 1] -> credential_matches_type (is_credential s) (is_credtype s) ->
+    via_text parse server_decode (print (server_encode s)) = Ok s.
+  Proof. intros H1 H2. rewrite via_text_print. now apply server_roundtrip. Qed.
+End TextLayer.
+
+(* ------------------------------------------------------------------ *)
+(* PEM (encoding/pem, x509 and PKCS#8 assumed to invert their own output) *)
+
+Section PEMProofs.
+  Variables cert key : Type.
+  Variable cert_raw : cert -> list N.
+  Variable x509_parse : list N -> option cert.
+  Variable pkcs8_marshal : key -> option (list N).
+  Variable pkcs8_parse : list N -> option key.
+  Variable b64_decode : list N -> option (list N).
+  Hypothesis parse_raw : forall c, x509_parse (cert_raw c) = Some c.
+  Hypothesis parse_key : forall k kb, pkcs8_marshal k = Some kb -> pkcs8_parse kb = Some k.
+
+  Let from := from_pem cert key x509_parse pkcs8_parse b64_decode.
+  Let to := to_pem cert key cert_raw pkcs8_marshal.
+
+  Lemma pem_roundtrip k c bs : to k c = Ok bs -> from bs = Ok (k, c).
+  Proof.
+    unfold to, to_pem, from, from_pem.
+    destruct (pkcs8_marshal k) as [kb|] eqn:E; [|discriminate].
+    intro H. inversion H; subst bs. cbn.
+    rewrite parse_raw. rewrite (parse_key k kb E). reflexivity.
+  Qed.
+
+  (* the reader does not depend on the order of the two blocks *)
+  Lemma pem_swapped k c kb :
+    pkcs8_marshal k = Some kb ->
+    from [("PRIVATE KEY", kb); ("CERTIFICATE", cert_raw c)] = Ok (k, c).
+  Proof.
+    intro E. unfold from, from_pem. cbn.
+    rewrite (parse_key k kb E). rewrite parse_raw. reflexivity.
+  Qed.
+
+  (* nor does it ever return a certificate without a key, or two of either *)
+  Lemma pem_two_certs_rejected k c kb c2 :
+    pkcs8_marshal k = Some kb ->
+    from [("CERTIFICATE", cert_raw c); ("PRIVATE KEY", kb); ("CERTIFICATE", cert_raw c2)]
+    = Err "multiple-cert".
+  Proof.
+    intro E. unfold from, from_pem. cbn.
+    rewrite parse_raw. rewrite (parse_key k kb E). reflexivity.
+  Qed.
+
+  Lemma pem_missing_key c : from [("CERTIFICATE", cert_raw c)] = Err "missing".
+  Proof. unfold from, from_pem. cbn. rewrite parse_raw. reflexivity. Qed.
+End PEMProofs.
